@@ -354,8 +354,33 @@ func c10StressPlan(tp *Tape, env *Env) *Plan {
 	if len(cfg.Handlers) == 0 {
 		cfg.Handlers = []HandlerSpec{{Name: "c0", Shape: "conv_error", Params: []string{"int", "string"}}}
 	}
+	waitRuns := tp.Chance(50, "waitruns")
+	if waitRuns {
+		cfg.WWait = 6
+	}
 	g := &gen{tp: tp, cfg: cfg}
 	prog := g.program()
+	if waitRuns {
+		// runs of waits back to back: the goroutine of one wait is still winding down when the next one starts
+		for _, n := range prog.Nodes {
+			var body []*Stmt
+			for _, st := range n.Body {
+				body = append(body, st)
+				if st.K == sWait {
+					for k := tp.Int(1, 3, "morewaits"); k > 0; k-- {
+						body = append(body, &Stmt{K: sWait, E: &Expr{K: eNum, N: cfg.WaitVals[tp.Int(0, len(cfg.WaitVals)-1, "morewaitval")]}})
+					}
+				}
+			}
+			n.Body = body
+		}
+		// and one run right at the start, where every execution passes
+		var run []*Stmt
+		for k := tp.Int(3, 5, "startwaits"); k > 0; k-- {
+			run = append(run, &Stmt{K: sWait, E: &Expr{K: eNum, N: cfg.WaitVals[tp.Int(0, len(cfg.WaitVals)-1, "startwaitval")]}})
+		}
+		prog.Nodes[0].Body = append(run, prog.Nodes[0].Body...)
+	}
 	layout := Layout{Indent: "    ", FinalNL: true}
 	w := World{Readers: []ReaderSpec{{Text: renderNodes(prog.Nodes, layout, 0)}}}
 	scheds := drawScheds(tp, true)
@@ -377,8 +402,13 @@ func c10StressPlan(tp *Tape, env *Env) *Plan {
 		if st == "CHOOSING" {
 			arg = tp.Int(0, len(m.choosing.Options)-1, "choice")
 		}
+		wasWait := len(ops) > 0 && ops[len(ops)-1].Exp != nil && ops[len(ops)-1].Exp.Kind == rWaiting && len(m.waits) > 0
+		nw := len(m.waits)
 		op := recordNext(m, arg)
 		ops = append(ops, op)
+		if wasWait && len(m.waits) > nw && env != nil && env.St != nil {
+			env.St.probe("stress_plan_with_waits_back_to_back")
+		}
 		if op.Exp != nil && op.Exp.Kind == rEnd {
 			break
 		}
